@@ -15,7 +15,7 @@ Inductive variant :=
 | VLong (z : Z)
 | VString (s : list Z).
 
-Inductive verr := EOverflow | ETypeMismatch | ENotFinite | EDivisionByZero.
+Inductive verr := EOverflow | ETypeMismatch | ENotFinite | EDivisionByZero | EOutOfData.
 
 Inductive vres (A : Type) := Ok (a : A) | Err (e : verr).
 Arguments Ok {A}. Arguments Err {A}.
@@ -206,7 +206,7 @@ Definition variant_eqb (a b : variant) : bool :=
   end.
 
 Definition verr_code (e : verr) : Z :=
-  match e with EOverflow => 6 | ETypeMismatch => 13 | ENotFinite => 1000 | EDivisionByZero => 11 end.
+  match e with EOverflow => 6 | ETypeMismatch => 13 | ENotFinite => 1000 | EDivisionByZero => 11 | EOutOfData => 4 end.
 
 Definition vres_eqb (a : vres variant) (code : Z) (b : variant) : bool :=
   match a with
